@@ -145,6 +145,20 @@ def run(ctx):
                         continue
                     okm = False
                 okf = okm and want in alts
+                plain_only = M[0] != "phi" and nocast(M) == want
+                if okf and plain_only:
+                    # `(1 << l) - 1` on every path (no branch for l = 64): the shift overflows unless the constructor keeps l below 64
+                    from .common import construction_blocks as _cb
+                    from ..guards import int_bounds as _ib
+                    hi_l = None
+                    if ctor is not None:
+                        cb_ = _cb(ctx, ctor, CF)
+                        lp_ = [("param", i, ctor.local_name(i)) for i in range(1, ctor.arg_count + 1) if ctor.local_name(i) == "l_fingerprint"]
+                        if cb_ and lp_:
+                            hi_l = _ib(atomic_facts(ctor, prog, cb_[-1]), lp_[0])[1]
+                    if hi_l is None or hi_l > 63:
+                        okf = False
+                        why = "%s — the modulus (1 << l) - 1 is computed without a case for l = 64, which the constructor admits (l <= %s): the shift overflows and every insert/query/delete on such a filter panics" % (fmt(r)[:120], hi_l)
         ctx.check(okf, "R07-fingerprint-nonzero", fp.key, fp, "fingerprint = 1 + (hash %% (2^l - 1)) in [1, 2^l - 1]: never 0, fits the slot",
                   "fingerprint is %s: it can be 0 (the free-slot marker) or exceed l_fingerprint bits" % why[:200])
         # the l == 64 branch guard
